@@ -165,10 +165,10 @@ pub open spec fn g(&self) -> Graph { graph_of(self.dependencies@) }
 //@|        forall|i: int| 0 <= i < it.snapshot@.remaining().len() ==> types@.contains(*#[trigger] it.snapshot@.remaining()[i]),
 //@|        forall|x: String| types@.contains(x) ==> visited@.contains(x)
 //@|            || exists|i: int| it.index@ <= i < it.snapshot@.remaining().len() && *#[trigger] it.snapshot@.remaining()[i] == x,
-//@ BEFORE `self.topological_visit(type_name, &mut sorted, &mut visited, &mut visiting);`
+//@ BEFORE `self.topological_visit(type_name, &mut sorted, &mut visited, &mut visiting)`
 //@|    let ghost sorted_before = sorted@;
 //@|    proof { assert(string_of(type_name@) == *type_name); }
-//@ AFTER `self.topological_visit(type_name, &mut sorted, &mut visited, &mut visiting);`
+//@ AFTER `self.topological_visit(type_name, &mut sorted, &mut visited, &mut visiting)`
 //@|    proof {
 //@|        assert forall|i: int| 0 <= i < sorted@.len() implies
 //@|            exists|t: String| types@.contains(t) && reaches(self.g(), t, #[trigger] sorted@[i]) by {
@@ -233,7 +233,7 @@ pub open spec fn g(&self) -> Graph { graph_of(self.dependencies@) }
 //@|        forall|i: int| 0 <= i < it.snapshot@.remaining().len() ==> deps@.contains(*#[trigger] it.snapshot@.remaining()[i]),
 //@|        forall|x: String| deps@.contains(x) ==> visiting@.contains(x) || visited@.contains(x)
 //@|            || exists|i: int| it.index@ <= i < it.snapshot@.remaining().len() && *#[trigger] it.snapshot@.remaining()[i] == x,
-//@ BEFORE `self.topological_visit(dep, sorted, visited, visiting);`
+//@ BEFORE `self.topological_visit(dep, sorted, visited, visiting)`
 //@|    let ghost sorted_before = sorted@;
 //@|    let ghost visited_before = visited@;
 //@|    proof {
@@ -247,7 +247,7 @@ pub open spec fn g(&self) -> Graph { graph_of(self.dependencies@) }
 //@|        }
 //@|        lemma_measure_decreases(self.dependencies@.dom(), old(visiting)@, name_s);
 //@|    }
-//@ AFTER `self.topological_visit(dep, sorted, visited, visiting);`
+//@ AFTER `self.topological_visit(dep, sorted, visited, visiting)`
 //@|    proof {
 //@|        assert forall|i: int| old(sorted)@.len() <= i < sorted@.len()
 //@|            implies reaches(g, name_s, #[trigger] sorted@[i]) by {
